@@ -28,19 +28,19 @@ type lockFn struct {
 }
 
 type lockAn struct {
-	fset     *token.FileSet
-	structs  map[string]*ast.StructType
-	globals  map[string]string
-	fns      map[string]*lockFn
-	byName   map[string][]string
-	results  map[string]string // function key -> first result type
-	edges    map[[2]string]string
-	sites    int
-	unknown  []string
-	unbal    []string
-	acq      map[string]map[string]bool
-	lits     int
-	wanted   map[string]bool
+	fset    *token.FileSet
+	structs map[string]*ast.StructType
+	globals map[string]string
+	fns     map[string]*lockFn
+	byName  map[string][]string
+	results map[string]string // function key -> first result type
+	edges   map[[2]string]string
+	sites   int
+	unknown []string
+	unbal   []string
+	acq     map[string]map[string]bool
+	lits    int
+	wanted  map[string]bool
 }
 
 func typeName(t ast.Expr) string {
